@@ -66,7 +66,10 @@ macro_rules! size_fn {
     )* } }
 }
 size_fn!(list_size => list_sz, map_size => map_sz, array_size => array_sz);
-pub fn transparent_vec_size(len: usize, _is_array_element: &IsArrayElement) -> (r: Result<usize, usize>) ensures r == Ok::<usize, usize>(len) { Ok(len) }
+//@@ fn file=serde_amqp/src/size_ser.rs name=transparent_vec_size
+//@@ spec
+    ensures r == Ok::<usize, usize>(len),       // [C20.size.transparent-vec-adds-nothing] a transparent vector is sized as the octets of its elements alone: no header, in any position (the encoder writes none either, unit SERENTRY)
+//@@ end
 
 //@@ type file=serde_amqp/src/size_ser.rs kind=struct name=SeqSerializer
 //@@ end
